@@ -447,7 +447,12 @@ class EvalGetter(EvalNode):
 
 
 class EvalColumn(EvalNode):
-    pass
+    def __eq__(self, other):
+        # Column classes that do not declare __slots__ keep their
+        # attributes in the instance dictionary: two such columns of
+        # the same type are not the same column.
+        return (super().__eq__(other)
+                and getattr(self, '__dict__', None) == getattr(other, '__dict__', None))
 
 
 class EvalAggregator(EvalFunction):
